@@ -379,39 +379,41 @@ def cli_cases(tier, rng):
     damaged = {'base': 'dipro+trpcage/AB', 'damage': ['junk-h'], 'seed': 3}
     cases = [
         # every documented form of the specification
-        (mixed, [['-mutate', 'B-GLY10:ALA']], 'chain+name+number'),
-        (mixed, [['-mutate', 'GLY10:ALA']], 'name+number'),
+        (mixed, [['-mutate', 'B-GLY10:ALA']], '~chain+name+number'),
+        (mixed, [['-mutate', 'GLY10:ALA']], '~name+number'),
         (mixed, [['-mutate', 'A-PRO:ALA']], 'chain+name'),
-        (mixed, [['-mutate', 'PRO:GLY']], 'name only, several chains'),
-        (mixed, [['-mutate', '2:GLY']], 'number only, residues 2 of both chains'),
-        (mixed, [['-mutate', 'B-2:GLY']], 'chain+number'),
+        (mixed, [['-mutate', 'PRO:GLY']], '~name only, several chains'),
+        (mixed, [['-mutate', '2:GLY']], '~number only, residues 2 of both chains'),
+        (mixed, [['-mutate', 'B-2:GLY']], '~chain+number'),
         (two, [['-mutate', 'B-:GLY']], 'chain only'),
         (two, [['-mutate', 'B-PRO2:ALA'], ['-modify', 'A-nter:NH2-ter']], 'same residue number in two chains'),
         (mixed, [['-modify', 'nter:NH2-ter'], ['-modify', 'B-cter:COOH-ter']], 'termini through -modify'),
-        (mixed, [['-nter', 'NH2-ter']], '-nter'),
+        (mixed, [['-nter', 'NH2-ter']], '~-nter'),
         (mixed, [['-cter', 'COOH-ter'], ['-nter', 'none']], '-cter and none'),
-        (mixed, [], 'defaults only'),
+        (mixed, [], '~defaults only'),
         (mixed, [['-modify', 'B-ASP9:ASP-HD2'], ['-modify', 'LYS:LYS-LSN']], '-modify on side chains'),
         (mixed, [['-modify', 'W-:none']], 'chain-only request on water molecules'),
         # several requests
         (mixed, [['-mutate', 'B-GLY10:ALA'], ['-mutate', 'GLY10:ALA']], 'same residue, same target, twice'),
         (icode, [['-mutate', 'A-GLY10:ALA'], ['-mutate', 'GLY:ALA']], 'overlapping; residues differing by insertion code'),
-        (icode, [['-mutate', 'GLY10:ALA'], ['-modify', 'PRO17:none']], 'insertion codes'),
-        (icode, [['-mutate', '17:GLY']], 'number only, three insertion codes'),
-        (mixed, [['-mutate', 'B-GLY10:ALA'], ['-mutate', 'GLY10:SER']], 'conflicting mutations'),
+        (icode, [['-mutate', 'GLY10:ALA'], ['-modify', 'PRO17:none']], '~insertion codes'),
+        (icode, [['-mutate', '17:GLY']], '~number only, three insertion codes'),
+        (mixed, [['-mutate', 'B-GLY10:ALA'], ['-mutate', 'GLY10:SER']], '~conflicting mutations'),
         (two, [['-mutate', 'PRO2:ALA'], ['-mutate', 'A-PRO:GLY']], 'conflicting in one chain only'),
         (mixed, [['-mutate', 'C-GLY10:ALA'], ['-mutate', 'B-GLY15:ALA']], 'one unmatched (no chain C)'),
-        (mixed, [['-mutate', 'B-ALA10:GLY'], ['-modify', 'B-TRP7:none'], ['-mutate', 'B-GLY15:ALA']], 'two unmatched'),
+        (mixed, [['-mutate', 'B-ALA10:GLY'], ['-modify', 'B-TRP7:none'], ['-mutate', 'B-GLY15:ALA']], '~two unmatched'),
         (mixed, [['-mutate', 'B-GLY10:XYZ']], 'unknown block on a matching request'),
-        (mixed, [['-modify', 'B-GLY10:NOSUCHMOD']], 'unknown modification on a matching request'),
-        (mixed, [['-mutate', 'C-GLY10:XYZ']], 'unknown block on an unmatched request'),
+        (mixed, [['-modify', 'B-GLY10:NOSUCHMOD']], '~unknown modification on a matching request'),
+        (mixed, [['-mutate', 'C-GLY10:XYZ']], '~unknown block on an unmatched request'),
         (mixed, [['-mutate', 'B-SER13:ALA']], '-nt', True),
-        (labels, [['-mutate', 'A-GLY:ALA'], ['-modify', 'C-nter:NH2-ter']], 'chain labels out of order'),
+        (labels, [['-mutate', 'A-GLY:ALA'], ['-modify', 'C-nter:NH2-ter']], '~chain labels out of order'),
         (insulin, [['-mutate', 'A-CYS:SER']], 'two chains in one molecule'),
-        (insulin, [['-mutate', 'B-GLY:ALA'], ['-nter', 'NH2-ter']], 'two chains in one molecule, -nter'),
+        (insulin, [['-mutate', 'B-GLY:ALA'], ['-nter', 'NH2-ter']], '~two chains in one molecule, -nter'),
         (villin, [['-mutate', 'LEU:ILE'], ['-mutate', 'A-PHE:TYR']], 'heavy atoms only'),
         (damaged, [['-mutate', 'B-GLY10:ALA'], ['-mutate', 'A-PRO2:ALA']], 'hydrogens with meaningless names'),
     ]
+    if quick:
+        cases = [c for c in cases if not c[2].startswith('~')]         # '~': thorough tier only
     if not quick:
         more = []
         names = ['GLY', 'ALA', 'SER', 'PRO']
@@ -440,7 +442,7 @@ def cli_cases(tier, rng):
         cases += more
     out = []
     for c in cases:
-        out.append({'pdb': c[0], 'requests': c[1], 'label': c[2], 'nt': bool(c[3]) if len(c) > 3 else False})
+        out.append({'pdb': c[0], 'requests': c[1], 'label': c[2].lstrip('~'), 'nt': bool(c[3]) if len(c) > 3 else False})
     return out
 
 
